@@ -11,6 +11,8 @@ TraceNext == /\ l <= Len(Trace) /\ l' = l + 1 /\ Ev.ev = "rp"
                 \/ Ev.op = "swup" /\ SwUpOK(Ev)
                 \/ Ev.op = "extract" /\ ExtractOK(Ev)
                 \/ Ev.op = "repack" /\ RepackOK(Ev)
+                \/ Ev.op = "r2c" /\ R2COK(Ev)
+                \/ Ev.op = "c2r" /\ C2ROK(Ev)
 TraceInit == l = 1 /\ TLCSet(1, 1)
 TraceSpec == TraceInit /\ [][TraceNext]_l
 Progress == TLCSet(1, IF TLCGet(1) > l THEN TLCGet(1) ELSE l)
